@@ -298,6 +298,12 @@ OWNER_WITNESSES = [
     ("claimant of a claim guard swapped with the scope of another arena's guard",
      "let bump2: Bump = Bump::new();\nlet mut bump3: Bump = Bump::new();\n{\n    let mut guard = bump3.scope_guard();\n    let mut scope = guard.scope();\n    let mut g = bump2.claim();\n    core::mem::swap(&mut *g, &mut scope);\n}\ntouch(&bump2);",
      "let bump2: Bump = Bump::new();\nlet mut bump3: Bump = Bump::new();\n{\n    let mut guard = bump3.scope_guard();\n    let mut scope = guard.scope();\n    let mut g = bump2.claim();\n    touch(&mut *g); touch(&mut scope);\n}\ntouch(&bump2);"),
+    ("scope of a shorter-lived Bump swapped with a longer-lived one whose allocations are live (lifetime shortened by BumpAllocator::as_mut_scope)",
+     "let mut outer: Bump = Bump::new();\nlet outer_scope: &mut BumpScope = outer.as_mut_scope();\nlet x = outer_scope.alloc_str(\"a\").into_mut();\n{\n    let mut inner: Bump = Bump::new();\n    let inner_scope: &mut BumpScope = inner.as_mut_scope();\n    let shortened: &mut BumpScope = BumpAllocator::as_mut_scope(outer_scope);\n    core::mem::swap(shortened, inner_scope);\n}\ntouch(&x);",
+     "let mut outer: Bump = Bump::new();\nlet outer_scope: &mut BumpScope = outer.as_mut_scope();\nlet x = outer_scope.alloc_str(\"a\").into_mut();\n{\n    let mut inner: Bump = Bump::new();\n    let inner_scope: &mut BumpScope = inner.as_mut_scope();\n    let shortened: &mut BumpScope = BumpAllocator::as_mut_scope(outer_scope);\n    touch(shortened); touch(inner_scope);\n}\ntouch(&x);"),
+    ("scoped closure parameter swapped with a local Bump (lifetime shortened by BumpAllocator::as_mut_scope)",
+     "let mut outer: Bump = Bump::new();\nouter.scoped(|scope| {\n    let mut inner: Bump = Bump::new();\n    core::mem::swap(BumpAllocator::as_mut_scope(scope), inner.as_mut_scope());\n});\ntouch(&outer);",
+     "let mut outer: Bump = Bump::new();\nouter.scoped(|scope| {\n    let mut inner: Bump = Bump::new();\n    touch(BumpAllocator::as_mut_scope(scope)); touch(inner.as_mut_scope());\n});\ntouch(&outer);"),
 ]
 
 S = "<BumpSettings as BumpAllocatorSettings>"
